@@ -270,7 +270,7 @@ func c05Sweep(c *ctx, e *m2.Environmental, b [6]int, hasT bool, t [3]int, cl map
 func TestC05(t *testing.T) {
 	c := begin(t, "C05")
 	defer c.end()
-	c.rec.F.Rule = "field sweep: objects decoded once per group shape, then every exported field stepped through all values — quick: all 729 base x 64 (CR,IR,AR) x 30 (CDP,TD) with the temporal group absent (1,399,680) plus the 73,629 vectors without environmental group and 4,000,000 distinct seeded points of the product with both groups present; thorough: the complete 729 x 101 x 1,921 product (141,441,309 objects). decode: canonical vectors chosen by a seeded pseudo-random bijection of the 729 x 101 x 1,921 index space (distinct by construction), parsed by the environmental decoder. Non-trivial = environmental group present with a requirement L/H, or CDP not in {N,ND}, or TD not in {H,ND}."
+	c.rec.F.Rule = "field sweep: objects decoded once per group shape, then every exported field stepped through all values — quick: all 729 base x 64 (CR,IR,AR) x 30 (CDP,TD) with the temporal group absent (1,399,680) plus the 73,629 vectors without environmental group and 4,000,000 distinct seeded points of the product with both groups present; thorough: the complete 729 x 101 x 1,921 product (141,441,309 objects). decode: canonical vectors chosen by a seeded pseudo-random bijection of the 729 x 101 x 1,921 index space (distinct by construction), parsed by the environmental decoder. decoded-then-assigned: 54 vectors of special shape (every optional metric ND except one, all ND, two ordinary) decoded, optionally scored, then completely re-assigned (24 hash-chosen assignments each) or changed in exactly one field (every field, every other value). Non-trivial = environmental group present with a requirement L/H, or CDP not in {N,ND}, or TD not in {H,ND}."
 	c.rec.F.Assumptions = []string{"reference model: exact rational AdjustedImpact with min(10,.), base equation with f() on the adjusted impact, round-to-1-decimal sets through the temporal and environmental equations; a negative equation value also admits 0 (and its clamped propagation)", "known findings KF-1 / KF-2 (known_findings.json): a deviation is excused only on a listed (base | CR/IR/AR) input and only if the library value equals the exact propagation of the listed wrong tenth", "field assignment on a decoded object is equivalent to decoding the corresponding vector (checked by the decode stage on a sample and by C09)"}
 
 	nviol := 0
@@ -521,7 +521,49 @@ func TestC05(t *testing.T) {
 				evalEnum(c, "decoded-then-assigned", assignedCase2{Decoded: tpl.withText(), ScoredFirst: a%2 == 0, Cur: cur.withText()}, checkC05Assigned, &nviol)
 			}
 		}
-		c.rec.Bulk("decoded-then-assigned", evals, evals, map[string]int64{"decoded-special-shape-then-assigned": evals})
+		// the commonest real use: decode, change exactly one field (every field, every other
+		// value), score — what Decode resolved and kept must not survive the assignment
+		var single int64
+		bdims := [6]int{3, 3, 3, 3, 3, 3}
+		for _, tpl := range templates {
+			try := func(cur fieldCase2) {
+				k++
+				if nviol > 0 || !mine(k) {
+					return
+				}
+				single++
+				evalEnum(c, "decoded-then-assigned", assignedCase2{Decoded: tpl.withText(), ScoredFirst: k%3 == 0, Cur: cur.withText()}, checkC05Assigned, &nviol)
+			}
+			for i := range tpl.B {
+				for v := 0; v < bdims[i]; v++ {
+					if v != tpl.B[i] {
+						cur := tpl
+						cur.B[i] = v
+						try(cur)
+					}
+				}
+			}
+			for i, m := range spec.V2T() {
+				for v := range m.Codes {
+					if v != tpl.T[i] {
+						cur := tpl
+						cur.T[i] = v
+						try(cur)
+					}
+				}
+			}
+			for i, m := range spec.V2E() {
+				for v := range m.Codes {
+					if v != tpl.E[i] {
+						cur := tpl
+						cur.E[i] = v
+						try(cur)
+					}
+				}
+			}
+		}
+		evals += single
+		c.rec.Bulk("decoded-then-assigned", evals, evals, map[string]int64{"decoded-special-shape-then-assigned": evals - single, "decoded-then-one-field-assigned": single})
 	}
 
 	// ---- rapid: random vectors (shrinkable) ------------------------------------------------
